@@ -112,7 +112,7 @@ def _sources_hash():
 
 # theorem files that depend on source-derived (regenerated) Lean files: each is built and audited on its own, never cached, and a
 # failure concerns only its property.  file stem -> property
-GEN_FILES = {'C16': 'C16', 'C06Gen': 'C06'}
+GEN_FILES = {'C16Gen': 'C16', 'C06Gen': 'C06'}
 GEN_PROPS = tuple(sorted(set(GEN_FILES.values())))
 
 
